@@ -168,6 +168,15 @@ def finish(prop, tier, seed, results, t0, *, bounds, stubs, assumptions, outside
         funcs.update(r.get('functions', []))
         why += r.get('inconclusive_why', [])
         vac += r.get('vacuity', [])
+    ss = dict(queries=0, agree=0, disagree=[])
+    for r in results:
+        x = r.get('second_solver')
+        if x:
+            ss['queries'] += x['queries']
+            ss['agree'] += x['agree']
+            ss['disagree'] += x['disagree']
+    if ss['queries']:
+        extra = dict(extra or {}, second_solver=dict(solver='cvc5 (python wheel, in-process, from Solver.to_smt2())', **ss))
     seen = set()
     for k in known:
         key = (k.get('id'), k.get('what'))
